@@ -601,3 +601,234 @@ def c17_round_c(ctx, exe, cache_lines):
     ctx.count("copies-of-the-parsed-tag-array (constructed, assigned, appended)", len(copy_lines), len(set(copy_lines)))
     ctx.count("appended-renders (pre-existing length 0..64, several values through one cache, carry-out reals)", len(app_lines), len(set(app_lines)),
               sample={"stream": "append", "input": app_lines[0][:300], "impl": impl[len(copy_lines)] if app_lines else ""})
+
+
+# =================================================================================================
+# C04, round e — comparisons of whole numbers above 2^53 across number kinds (seeded/C04-e2: the comparison
+# operators converted Natural-vs-Integer operands to double, so two whole numbers closer than one double ulp
+# compared equal).  Deterministic stream H + exact oracle on all entry points.
+
+P53, P62, P63, P64 = 1 << 53, 1 << 62, 1 << 63, 1 << 64
+CMP_OPS = ["==", "!=", "<", "<=", ">", ">="]
+
+
+def _cmp(op, a, b):
+    return {"==": a == b, "!=": a != b, "<": a < b, "<=": a <= b, ">": a > b, ">=": a >= b}[op]
+
+
+def _producers(v, side):
+    """ways to obtain the whole number v as an operand: {kind: [(text, vars)]}; kind n = Natural (unsigned),
+    i = Integer (signed; only for v < 2^63), r = Real (only when v is exactly a double).  `side` names the variable."""
+    a = side
+    out = {"n": [], "i": [], "r": []}
+    out["n"].append((str(v), {}))                                            # unsigned literal
+    out["n"].append(("{var:%s}" % a, {a: "n%d" % v}))                        # unsigned variable
+    if v + 1 < P64:
+        out["n"].append(("(%d - 1)" % (v + 1), {}))                          # Natural - Natural (no borrow) stays Natural
+    if v >= 1:
+        out["n"].append(("({var:%s} + 1)" % a, {a: "n%d" % (v - 1)}))
+    if v < P63:
+        out["i"].append(("{var:%s}" % a, {a: "i%d" % v}))                    # signed variable (IntLong)
+        out["i"].append(("(-1 + %d)" % (v + 1), {}))                         # a negative literal took part
+        out["i"].append(("(0 - -%d)" % v, {}))                               # minus a negative literal
+        out["i"].append(("(1 - 2 + %d)" % (v + 1), {}))                      # a natural difference below zero took part
+        if v >= 1:
+            out["i"].append(("({var:%s} + 1)" % a, {a: "i%d" % (v - 1)}))
+        if v >= 1:
+            out["i"].append(("({var:%s} - -1)" % a, {a: "n%d" % (v - 1)}))
+    if float(v) == v and int(float(v)) == v:
+        out["r"].append(("{var:%s}" % a, {a: _r(float(v))}))                 # a double variable holding exactly v
+        out["r"].append(("({var:%s} * 1.0)" % a, {a: "n%d" % v}))            # Natural promoted to Real by the operation
+        if v < P63:
+            out["r"].append(("({var:%s} + 0.0)" % a, {a: "i%d" % v}))
+    return out
+
+
+def _vars(*ds):
+    d = {}
+    for x in ds:
+        d.update(x)
+    return ";".join("%s=%s" % kv for kv in sorted(d.items())) if d else "-"
+
+
+# The unchanged code reads a Natural operand through the SIGNED member of the number union whenever it stands next
+# to an integral operand, and also when it is the RIGHT operand of a Real (QExpression.hpp, the six comparison
+# operators; notes/design-expr.md "Natural operands >= 2^63").  Such results are recorded, not judged, until the
+# repair proposed in notes/fix-expr-natural-above-int63-compare.diff is in the tree; then make this True
+# (C04_NAT63_JUDGED=1 in the environment turns it on for a trial run against a patched copy).
+import os as _os
+NAT63_JUDGED = _os.environ.get("C04_NAT63_JUDGED", "1") == "1"   # judged; failures of this class carry their own key (recorded finding)
+
+
+def _expect(ka, a, kb, b, op):
+    """(truth or None, class) of `a op b`, a the LEFT operand: the documented arithmetic.  Two integral operands:
+    exact comparison of the whole numbers (= unsigned -> signed promotion without loss whenever every Natural is
+    below 2^63).  With a Real operand the other side is promoted to Real (nearest double) and two doubles are
+    compared.  Class nat63 (see NAT63_JUDGED): a Natural >= 2^63 next to an integral operand or right of a Real."""
+    if ka == "r" or kb == "r":
+        truth = _cmp(op, float(a), float(b))
+        if ka == "r" and kb == "n" and b >= P63:
+            return (truth if NAT63_JUDGED else None), "nat63"
+        return truth, "real"
+    truth = _cmp(op, a, b)
+    if (ka == "n" and a >= P63) or (kb == "n" and b >= P63):
+        return (truth if NAT63_JUDGED else None), "nat63"
+    return truth, "int"
+
+
+def c04_huge_compare(gen):
+    """stream H.  Fills gen.huge: (text, vars) -> (truth 0/1 or None, class, exact truth).  Returns the count."""
+    rng = gen.rng
+    base = [P53 - 1, P53, P53 + 1, P53 + 2, P62, P63 - 1, P63, P63 + 1, P64 - 1]
+    rnd = [rng.randrange(P53, P62) for _ in range(5)] + [rng.randrange(P62, P63 - 4) for _ in range(4)] + [rng.randrange(P63, P64 - 4) for _ in range(3)]
+    pairs = []
+    for x in base:
+        for y in base:
+            pairs.append((x, y))
+    for x in base + rnd:
+        for d in (-3, -2, -1, 0, 1, 2, 3):
+            if 0 <= x + d < P64:
+                pairs.append((x, x + d))
+                pairs.append((x + d, x))
+    pairs = list(dict.fromkeys(pairs))
+    gen.huge = {}
+    n0 = len(gen.exprs)
+    rot = 0
+
+    def one(x, y, ka, kb, op, k):
+        pa, pb = _producers(x, "a")[ka], _producers(y, "b")[kb]
+        if not pa or not pb:
+            return
+        ta, va = pa[k % len(pa)]
+        tb, vb = pb[(k // 3 + k) % len(pb)]
+        truth, cls = _expect(ka, x, kb, y, op)
+        text = ("%s OP %s" % (ta, tb)).replace("OP", op)
+        sp = "" if k % 3 == 0 else " "
+        text = text.replace(" %s " % op, sp + op + sp) if not (sp == "" and tb.startswith("-")) else text
+        gen.add_raw("H", text, _vars(va, vb))
+        exact = _cmp(op, float(x), float(y)) if "r" in (ka, kb) else _cmp(op, x, y)
+        gen.huge[(text, _vars(va, vb))] = (None if truth is None else int(truth), cls, int(exact))
+    for (x, y) in pairs:
+        for ka in "nir":
+            for kb in "nir":
+                mixed_int = {ka, kb} == {"n", "i"}
+                for oi, op in enumerate(CMP_OPS):
+                    rot += 1
+                    if mixed_int or (oi + rot) % 3 == 0:
+                        one(x, y, ka, kb, op, rot)
+    # every producer of each kind at least once against the neighbour above / below, all operators
+    for x in (P53, P53 + 1, P62 + 1, P63 - 2):
+        for ka in "nir":
+            for k in range(6):
+                for kb in "nir":
+                    for op in CMP_OPS:
+                        rot += 1
+                        if (rot + k) % 2:
+                            one(x, x + 1, ka, kb, op, k)
+                            one(x + 1, x, kb, ka, op, k + rot)
+    # && / || over two comparisons (comparisons bind tighter), with and without parentheses
+    for j, (x, y) in enumerate(pairs[::3]):
+        if x >= P63 or y >= P63:
+            continue
+        op1, op2 = CMP_OPS[j % 6], CMP_OPS[(j // 6 + 1) % 6]
+        ka, kb = ("n", "i") if j % 2 else ("i", "n")
+        pa, pb = _producers(x, "a")[ka], _producers(y, "b")[kb]
+        pc, pd = _producers(y, "c")[ka], _producers(x, "d")[kb]
+        (ta, va), (tb, vb), (tc, vc), (td, vd) = pa[j % len(pa)], pb[j % len(pb)], pc[(j + 1) % len(pc)], pd[(j + 2) % len(pd)]
+        t1, t2 = _cmp(op1, x, y), _cmp(op2, y, x)
+        for lg in ("&&", "||"):
+            truth = int((t1 and t2) if lg == "&&" else (t1 or t2))
+            text = "%s %s %s %s %s %s %s" % (ta, op1, tb, lg, tc, op2, td) if j % 4 else "(%s %s %s) %s (%s %s %s)" % (ta, op1, tb, lg, tc, op2, td)
+            vs = _vars(va, vb, vc, vd)
+            gen.add_raw("H", text, vs)
+            gen.huge[(text, vs)] = (truth, "logic", truth)
+    # Reals that are NOT whole numbers next to huge whole numbers (they exist only below 2^53), and the doubles
+    # adjacent to a huge whole number; same-kind and mixed
+    for x in (1 << 52, (1 << 52) + 1, P53 - 2, P53 - 1, P53):
+        for fr in (x - 0.5, x + 0.5, x - 1.5, float(x)):
+            if fr != int(fr) or fr == float(x):
+                for ka in "nir":
+                    for op in CMP_OPS:
+                        rot += 1
+                        pa = _producers(x, "a")[ka]
+                        if not pa:
+                            continue
+                        ta, va = pa[rot % len(pa)]
+                        for flip in (0, 1):
+                            text = "%s %s {var:b}" % (ta, op) if not flip else "{var:b} %s %s" % (op, ta)
+                            vs = _vars(va, {"b": _r(fr)})
+                            truth, cls = _expect(ka, x, "r", fr, op) if not flip else _expect("r", fr, ka, x, op)
+                            exact = _cmp(op, float(x), fr) if not flip else _cmp(op, fr, float(x))
+                            gen.add_raw("H", text, vs)
+                            gen.huge[(text, vs)] = (None if truth is None else int(truth), "real-fraction" if cls == "real" else cls, int(exact))
+    import math
+    for x in base + rnd[:6]:
+        fx = float(x)
+        for fr in (math.nextafter(fx, 0.0), fx, math.nextafter(fx, math.inf)):
+            if fr >= 1.8e19:
+                continue
+            for ka in "ni":
+                pa = _producers(x, "a")[ka]
+                for op in CMP_OPS:
+                    rot += 1
+                    if not pa or rot % 2:
+                        continue
+                    ta, va = pa[rot % len(pa)]
+                    text = "%s %s {var:b}" % (ta, op) if rot % 4 else "{var:b} %s %s" % (op, ta)
+                    vs = _vars(va, {"b": _r(fr)})
+                    truth, cls = _expect(ka, x, "r", fr, op) if rot % 4 else _expect("r", fr, ka, x, op)
+                    exact = _cmp(op, fx, fr) if rot % 4 else _cmp(op, fr, fx)
+                    gen.add_raw("H", text, vs)
+                    gen.huge[(text, vs)] = (None if truth is None else int(truth), "real-adjacent" if cls == "real" else cls, int(exact))
+    # == / != of a huge unsigned and a negative signed number (wrap candidates: the same 64-bit pattern)
+    for u, s in ((P64 - 1, -1), (P64 - 2, -2), (P63, -P63 + 1), (P63 + 5, 5 - P63), (P64 - P53, -P53), (P63 - 1, -1), (P62, -P62), (P53 + 1, -(P53 + 1))):
+        for tu, vu in _producers(u, "a")["n"][:2]:
+            for ts, vsd in (("{var:b}", {"b": "i%d" % s}), ("%d" % s, {}), ("(0 - %d)" % (-s), {})):
+                for op in CMP_OPS:
+                    for flip in (0, 1):
+                        text = "%s %s %s" % ((tu, op, ts) if not flip else (ts, op, tu))
+                        vs = _vars(vu, vsd)
+                        exact = int(_cmp(op, u, s) if not flip else _cmp(op, s, u))
+                        truth, cls = _expect("n", u, "i", s, op) if not flip else _expect("i", s, "n", u, op)
+                        gen.add_raw("H", text, vs)
+                        gen.huge[(text, vs)] = (None if truth is None else int(truth), cls, exact)
+    return len(gen.exprs) - n0
+
+
+def c04_huge_compare_oracle(ctx, exe, gen, exprs, meta, lines, impl, units_of):
+    """exact oracle on what the real code returned for stream H in the entry points {math:}, <if case>,
+    ParseExpressions+Evaluate (already run) and the inline if (mode q, run here)."""
+    huge = getattr(gen, "huge", {})
+    idx = [k for k, e in enumerate(exprs) if e["stream"] == "H" and (e["text"], e["vars"]) in huge]
+    qlines = ["expeval q %s %s" % (exprs[k]["vars"], units_of(exprs[k]["text"])) for k in idx]
+    qout, qfaults = core.run_lines_parallel(exe, qlines, jobs=12)
+    for i, kind, err in qfaults:
+        ctx.fail("fault:" + kind, "sanitizer fault in an inline if over huge operands: " + qlines[i], {"line": qlines[i], "stderr": err})
+    results = [(lines[i], impl[i], exprs[k], mode) for i, (k, mode) in enumerate(meta) if exprs[k]["stream"] == "H"]
+    results += [(qlines[j], qout[j], exprs[k], "q") for j, k in enumerate(idx)]
+    n, nbad, obs, obs_wrong, per_cls = 0, 0, 0, [], {}
+    for line, out, e, mode in results:
+        info = huge.get((e["text"], e["vars"]))
+        if info is None or out.startswith("FAULT"):
+            continue
+        truth, cls, exact = info
+        judge = exact if truth is None else truth
+        want = {"p": "V n %d %d" % (judge, judge), "m": "M %d" % (48 + judge), "i": "I %d" % (70 if judge == 0 else 84), "q": "Q %d" % (70 if judge == 0 else 84)}[mode]
+        if truth is None:
+            obs += 1
+            if out != want and len(obs_wrong) < 6 and mode == "p":
+                obs_wrong.append("%s [%s] -> %s (exact: %d)" % (e["text"], e["vars"], out, exact))
+            continue
+        n += 1
+        per_cls[cls] = per_cls.get(cls, 0) + 1
+        if out != want:
+            nbad += 1
+            if nbad <= 300:
+                ctx.fail("natural-above-int63-compare" if cls == "nat63" else "oracle:huge-compare", "comparison of whole numbers above 2^53 / across number kinds differs from exact arithmetic (%s, class %s): %r (vars %s) -> %s, expected %s" % (
+                    {"p": "Evaluate", "m": "{math:}", "i": "<if case>", "q": "inline if"}[mode], cls, e["text"], e["vars"], out, want),
+                    {"line": line, "text": e["text"], "vars": e["vars"], "mode": mode, "impl_output": out, "expected": want, "class": cls})
+    ctx.count("S3-huge-compare (H stream: kinds N/I/R x six comparisons, && ||, four entry points)", n, n,
+              sample={"stream": "S3-huge-compare", "cases": n, "failures": nbad, "per class": per_cls})
+    ctx.notes.append("stream H: %d judged results (%s), %d failures; %d results with a Natural operand >= 2^63 next to an integral operand are observed only "
+                     "(the unchanged code promotes through the signed member, notes/design-expr.md); examples where the code differs from exact arithmetic: %s" % (
+                         n, ", ".join("%s:%d" % kv for kv in sorted(per_cls.items())), nbad, obs, "; ".join(obs_wrong) or "none"))
